@@ -140,6 +140,7 @@ type decBase struct {
 	calls   int
 	ok      bool // the fault-free decode returned a tree
 	lenLike []int64
+	lenW    map[int64]int64 // width of the read at that offset
 	hang    bool
 }
 
@@ -242,6 +243,10 @@ func (*hdec) Run(rc *core.RunCtx) *core.RunResult {
 		for _, r := range disk.readLog {
 			if r[1] >= 1 && r[1] <= 8 && len(base.lenLike) < 1024 {
 				base.lenLike = append(base.lenLike, r[0])
+				if base.lenW == nil {
+					base.lenW = map[int64]int64{}
+				}
+				base.lenW[r[0]] = r[1]
 			}
 		}
 		decBases[key] = base
@@ -297,9 +302,18 @@ func (*hdec) Run(rc *core.RunCtx) *core.RunResult {
 		// length-field saturation: every offset the fault-free decode read with a small
 		// width (and the first bytes), overwritten with one boundary value
 		b := satByte
-		width := 1 + t.Intn(2)*t.Intn(4)
+		// how much of a field is overwritten: the whole field as it was read, its last byte
+		// (the low byte of a big-endian count), or one byte at the field's start
+		shape := t.Intn(3)
 		seen := map[int]bool{}
 		var offs []int
+		if len(orig) <= 600 {
+			// small file: every byte offset
+			for o := 0; o < len(orig); o++ {
+				seen[o] = true
+				offs = append(offs, o)
+			}
+		}
 		for _, o := range base.lenLike {
 			if int(o) < len(orig) && !seen[int(o)] {
 				seen[int(o)] = true
@@ -319,10 +333,21 @@ func (*hdec) Run(rc *core.RunCtx) *core.RunResult {
 		}
 		for _, o := range offs {
 			d := mut()
-			for k := 0; k < width && o+k < len(d); k++ {
-				d[o+k] = b
+			w := int(base.lenW[int64(o)])
+			if w < 1 {
+				w = 1
 			}
-			faults = append(faults, decFault{descr: fmt.Sprintf("bytes %d..%d overwritten with 0x%02x", o, o+width-1, b), kind: "byte_overwrite", data: d})
+			lo, hi := o, o+1
+			switch shape {
+			case 0:
+				hi = o + w
+			case 1:
+				lo, hi = o+w-1, o+w
+			}
+			for k := lo; k < hi && k < len(d); k++ {
+				d[k] = b
+			}
+			faults = append(faults, decFault{descr: fmt.Sprintf("bytes %d..%d overwritten with 0x%02x", lo, hi-1, b), kind: "byte_overwrite", data: d})
 		}
 	case family < 4 && len(orig) > 0:
 		// every truncation length (small files) or a stride of them
